@@ -3,6 +3,7 @@
   Model: AmiscModel.Store (`sgRefine`, `designBatch`, `activateBatch`, `runBatches`).
 -/
 import AmiscProofs.StoreProofs
+import AmiscProofs.CostProofs
 
 namespace Amisc.C09
 
@@ -39,6 +40,54 @@ theorem nested_points : ∀ (s t : List Nat), s.length = t.length → (∀ i, s.
       have h0 : a ≤ b := by simpa using hle 0
       refine ⟨x, by omega, y, ?_, rfl⟩
       exact nested_points s t (by simpa using hl) (fun i => by simpa using hle (i + 1)) y hy
+
+
+/-! ## cost accounts and the allocation report (`model_costs`, `misc_costs`, `System.get_allocation`) -/
+
+open Amisc.Cost in
+/-- **The allocation report is truthful when the model's cost depends on the fidelity only**: after ANY sequence of
+    activations (any batches, any number of points per index, any mixture of fidelities per call) in which every evaluation
+    reports the cost `c alpha ≠ 0` of its fidelity, `get_allocation` reports for every fidelity exactly the number of
+    evaluations made and exactly the total cost the model reported — although the code keeps neither count and has to recover
+    it as `round(booked cost / average cost)`. -/
+theorem allocation_truthful_for_fidelity_costs (c : Idx → Q) (hc0 : ∀ a, c a ≠ 0) (calls : List Cost.Call)
+    (h : ∀ cl ∈ calls, Cost.ConstCall c cl) (a : Idx) :
+    allocEvals (runCalls {} calls) a = (trueEvals calls a : Int) ∧ allocCost (runCalls {} calls) a = trueCost calls a := by
+  have hg : Cost.Good c (runCalls {} calls) :=
+    Cost.runCalls_good c calls {} ⟨fun _ _ hv => by simp at hv, fun e he => by simp at he⟩ h
+  have hn := Cost.runCalls_sumNpts c a calls {} h
+  have h0 : Cost.sumNpts ({} : CostAcc) a = 0 := by simp [Cost.sumNpts]
+  rw [h0, Nat.zero_add] at hn
+  refine ⟨?_, ?_⟩
+  · rw [Cost.allocEvals_eq c hc0 _ hg a, hn]
+  · rw [Cost.allocCost_eq c _ hg a, hn, Cost.trueCost_eq c a calls h]
+
+/-- the same from any account state that satisfies the invariant (e.g. one loaded from file): the averages stay `c`, every
+    booked cost stays `c alpha × points` -/
+theorem cost_accounts_invariant (c : Idx → Q) (acc : CostAcc) (hg : Cost.Good c acc) (calls : List Cost.Call)
+    (h : ∀ cl ∈ calls, Cost.ConstCall c cl) : Cost.Good c (runCalls acc calls) := Cost.runCalls_good c calls acc hg h
+
+/-- **F8 (open finding), machine-checked**: the full-strength statement is FALSE of this bookkeeping when the cost varies
+    between evaluations of one fidelity. Two activations of one fidelity, 1 evaluation of cost 1, then 2 evaluations of cost
+    4 and 7: three evaluations were made and cost 12, the report says 2 evaluations costing 9. -/
+theorem allocation_wrong_for_varying_costs :
+    let calls : List Cost.Call := [([([0], [1])], [([0], [0], 1)]), ([([0], [4, 7])], [([0], [1], 2)])]
+    trueEvals calls [0] = 3 ∧ allocEvals (runCalls {} calls) [0] = 2 ∧
+    trueCost calls [0] = 12 ∧ allocCost (runCalls {} calls) [0] = 9 := by
+  refine ⟨by decide +kernel, by decide +kernel, by decide +kernel, by decide +kernel⟩
+
+/-! non-vacuity of the truthful case: fidelity-dependent costs 3 (alpha 0) and 5/2 (alpha 1), three calls -/
+example : Cost.ConstCall (fun a => if a = [0] then 3 else 5/2)
+    ([([0], [3, 3]), ([1], [5/2])], [([0], [0], 1), ([1], [0], 1), ([0], [1], 1)]) :=
+  ⟨by decide +kernel, by
+    intro a
+    by_cases h0 : a = [0]
+    · subst h0; decide
+    · by_cases h1 : a = [1]
+      · subst h1; decide
+      · have e0 : ([0] : Idx) ≠ a := fun h => h0 h.symm
+        have e1 : ([1] : Idx) ≠ a := fun h => h1 h.symm
+        simp [List.filter, e0, e1]⟩
 
 /-! non-vacuity: the history of the F11 witness (an index that differs from a computed one only in a surrogate-fidelity
     dimension arrives in a later batch): model fidelity (1), one data dim; no key twice -/
